@@ -202,7 +202,57 @@ func runC14(c *Ctx) {
 		lk       *ssa.Lookup
 	}
 	var lks []lkInfo
-	for _, b := range upd.Blocks {
+	// the classification is made in the update operation itself or in a helper it calls and whose results it uses
+	diffFn := upd
+	var diffCall *ssa.Call
+	hasLookups := func(f *ssa.Function) bool {
+		n := 0
+		AllInstrs(f, func(in ssa.Instruction) {
+			if lk, ok := in.(*ssa.Lookup); ok && lk.CommaOk && PathOf(lk.X).LastField() == s.FProcesses {
+				n++
+			}
+		})
+		return n >= 2
+	}
+	if !hasLookups(upd) {
+		AllInstrs(upd, func(in ssa.Instruction) {
+			if call, ok := in.(*ssa.Call); ok && diffCall == nil {
+				if sc := call.Call.StaticCallee(); sc != nil && len(sc.Blocks) > 0 && pkgOfFunc(sc) != nil && pkgOfFunc(sc).Name() == "app" && hasLookups(sc) {
+					diffFn, diffCall = sc, call
+				}
+			}
+		})
+	}
+	c.Touch(diffFn)
+	// toUpd maps a set built in the helper to the value the update operation receives for it
+	toUpd := func(v ssa.Value) ssa.Value {
+		if diffCall == nil || v == nil {
+			return v
+		}
+		var out ssa.Value
+		AllInstrs(diffFn, func(in ssa.Instruction) {
+			ret, ok := in.(*ssa.Return)
+			if !ok {
+				return
+			}
+			for i, r := range ret.Results {
+				if stripConv(r) != stripConv(v) {
+					continue
+				}
+				if len(ret.Results) == 1 {
+					out = diffCall
+					continue
+				}
+				for _, ref := range *diffCall.Referrers() {
+					if ex, ok := ref.(*ssa.Extract); ok && ex.Index == i {
+						out = ex
+					}
+				}
+			}
+		})
+		return out
+	}
+	for _, b := range diffFn.Blocks {
 		ifi := IfOf(b)
 		if ifi == nil {
 			continue
@@ -235,11 +285,18 @@ func runC14(c *Ctx) {
 			}
 			return PathOf(rg.X).HasField(s.FProject) == dir.outer
 		}
-		vis := Reach(Entry(upd), isScan, nil)
+		vis := Reach(Entry(diffFn), isScan, nil)
 		bad := false
 		for in := range vis {
 			if _, isRet := in.(*ssa.Return); isRet {
 				bad = true
+			}
+		}
+		if diffCall != nil {
+			for in := range Reach(Entry(upd), func(in ssa.Instruction) bool { return in == ssa.Instruction(diffCall) }, nil) {
+				if _, isRet := in.(*ssa.Return); isRet {
+					bad = true
+				}
 			}
 		}
 		c.Check(!bad, r3, dir.name+":unconditional", FirstPos(p, upd), "the scan is performed on every path", "the "+dir.name+" is skipped under some condition (e.g. only when the process count shrinks): a process replaced by a differently named one is never terminated and stays listed")
@@ -308,9 +365,11 @@ func runC14(c *Ctx) {
 		}
 	}
 	c.Check(newSet != nil && updSet != nil && delSet != nil && newSet != updSet && newSet != delSet && updSet != delSet, r3, "three-sets", FirstPos(p, upd), "three distinct sets", "the update does not keep three distinct sets for new, updated and removed processes")
+	newSet, updSet, delSet = toUpd(newSet), toUpd(updSet), toUpd(delSet)
 	// the action loops
 	removeDeep := p.Deep(MapDeleteOn("delete Processes", s.FProcesses))
 	addDeep := p.Deep(MapUpdateOn("insert Processes", s.FProcesses))
+	roleLoop := map[string]RangeLoop{}
 	for _, l := range RangeLoops(upd) {
 		var role string
 		var wantOK, wantErr string
@@ -324,6 +383,7 @@ func runC14(c *Ctx) {
 		default:
 			continue
 		}
+		roleLoop[role] = l
 		region := DominatedBlocks(l.Body)
 		var statuses []string
 		actions := map[string]bool{}
@@ -359,6 +419,20 @@ func runC14(c *Ctx) {
 		case "updated":
 			c.Check(actions["remove"] && actions["add"], r3, "action:updated", p.InstrPos(l.If), "updated processes are replaced", "updated processes are not replaced (remove + add) in the 'updated' loop")
 		}
+	}
+	// order of the actions: new processes are registered before changed ones are
+	// replaced (replacing a process re-derives its replica set from the registered configurations)
+	precedes := func(a, b string) bool {
+		la, oka := roleLoop[a]
+		lb, okb := roleLoop[b]
+		if !oka || !okb {
+			return false
+		}
+		vis := Reach([]Pt{{lb.Body, 0}}, nil, nil)
+		return !vis[ssa.Instruction(la.If)]
+	}
+	if len(roleLoop) == 3 {
+		c.Check(precedes("added", "updated"), r3, "order:added-before-updated", FirstPos(p, upd), "new processes are registered before changed ones are replaced", "changed processes are replaced before the new ones are registered: replacing re-scales a process from the registered configurations, so a raised replica count launches the new replicas there and the add step launches them a second time (orphaned duplicates)")
 	}
 	c.Floor(r3, 12, "classification obligations")
 
